@@ -75,5 +75,61 @@ pub fn run_prop(cli: &Cli) -> i32 {
             }
         }
     }
+    // frames behind a frame whose sending was interrupted: the selection (or the discovery, with the
+    // selection still to come) completes while the client has taken only a part of a Keep Alive; what
+    // follows on the wire are whole frames of their own, each with the layout of its packet
+    {
+        let claimed = mk::ident(&mut rng, "claimed");
+        let authed = mk::ident(&mut rng, "vouched");
+        for (stage, lat) in [("selection", [0u64, 0, 16_100]), ("discovery", [16_100, 0, 20_000])] {
+            let p = ScriptParams { intent: Intent::Login, address: "layout.example.org", port: 25565, protocol: 770, claimed: &claimed, locale: "en_us", ping_payload: 0, client_info_delay: Duration::ZERO };
+            let mut plan = default_plan(&p, mk::secret16(&mut rng));
+            plan.cookies = vec![(AUTH_KEY.to_string(), None)];
+            let mut adapters = mk::routing_adapters(Some((&authed, &[])), mk::targets(&mut rng, 2));
+            adapters.discovery_latency = Duration::from_millis(lat[0]);
+            adapters.strategy_latency = Duration::from_millis(lat[2]);
+            let cfg = ServerCfg { secret: Some(b"layout-secret".to_vec()), ..Default::default() };
+            let base = default_scenario("interrupted-send", plan, adapters, cfg);
+            let probe = run(&base);
+            let off: usize = probe.client.received.iter().take_while(|r| !matches!(r.pkt, Ok(Pkt::ConfKeepAliveOut { .. }))).map(|r| r.frame_len).sum();
+            let Some(ka) = probe.client.received.iter().find(|r| matches!(r.pkt, Ok(Pkt::ConfKeepAliveOut { .. }))) else {
+                report.inconclusive("interrupted send: the undisturbed run saw no Keep Alive");
+                continue;
+            };
+            for k in 1..ka.frame_len {
+                let mut sc = base.clone();
+                sc.write_plan = vp_sim::simnet::WritePlan { steps: vec![], stalls: vec![(off + k, Duration::from_millis(300))] };
+                let r = run(&sc);
+                let class = format!("login/interrupted-keep-alive@{k}/{stage}-completes");
+                report.eval(Some(&class));
+                report.count("clientbound frames decoded and re-encoded", r.client.received.len() as u64);
+                let mut problems = vec![];
+                for rec in &r.client.received {
+                    match &rec.pkt {
+                        Err(e) => problems.push(format!("frame with id {:#04x} ({} bytes) does not decode: {e}", rec.id, rec.frame_len)),
+                        Ok(p) => {
+                            let fixed = matches!(p, Pkt::LoginSuccess { .. } | Pkt::EncryptionRequest { .. } | Pkt::LoginCookieRequest { .. } | Pkt::Transfer { .. } | Pkt::StoreCookie { .. } | Pkt::ConfKeepAliveOut { .. });
+                            if fixed && p.frame().len() != rec.frame_len {
+                                problems.push(format!("{} arrived in a frame of {} bytes, the protocol layout of that value has {}", p.name(), rec.frame_len, p.frame().len()));
+                            }
+                        }
+                    }
+                }
+                if r.client.garbage.is_some() || r.client.incomplete_tail > 0 {
+                    problems.push("bytes behind the last whole frame".into());
+                }
+                if r.client.first("Transfer").is_none() && problems.is_empty() {
+                    problems.push(format!("the exchange did not complete ({})", r.result.kind()));
+                }
+                if !problems.is_empty() {
+                    report.violation(
+                        "wire-layout-at-the-connection/after-an-interrupted-send",
+                        &format!("the {stage} completed while the client had taken {k} of {} bytes of a Keep Alive: {}", ka.frame_len, problems.join("; ")),
+                        witness(&sc, &r, json!({"keep_alive_bytes_taken_before_the_stall": k, "problems": problems})),
+                    );
+                }
+            }
+        }
+    }
     report.finish()
 }
